@@ -25,6 +25,13 @@ def taintOf (cs : List Rat) : Rat :=
   | [c] => c
   | cs => 1 - reduce1 (fun x y => (1 - x) * (1 - y)) cs
 
+/-- the taint of a node after a sequence of mining rounds: `_update_seed_taints` runs after every
+round and keeps the maximum (`node.taint = max(node.taint, new_taint)`); `cs` are the node's seed
+confidences in the order the seeds were mined; a node that was a seed itself has taint 1 -/
+def taintHistory (isSeed : Bool) (cs : List Rat) : Rat :=
+  if isSeed then 1 else
+  (List.range (cs.length + 1)).foldl (fun t k => max t (taintOf (cs.take k))) 0
+
 /-- `Inference.compute_dijkstra_confidence` -/
 def dijkstra (sourceConf edgeConf targetTaint targetConf : Rat) : Rat :=
   sourceConf * edgeConf * (1 - targetTaint) * targetConf
